@@ -145,7 +145,43 @@ def gen_clump(rng, tier):
             gts.append(col)
         rows = list(range(nv))
         rng.shuffle(rows)
-        yield {"variants": variants, "gts": gts, "order": rows, "p1": rng.choice(["0.0001", "0.01", "0.1", "0.6", "1"]), "p2": rng.choice(["0.01", "0.3", "1"]), "kb": rng.choice([0.001, 0.5, 1, 250, 250]), "r2": rng.choice([0.0, 0.1, 0.5, 0.9]), "ld": rng.choice(["Pearson", "Pearson", "Exact"]), "cols": rng.choice([["SNP", "CHR", "POS", "P"], ["P", "POS", "SNP", "CHR"], ["CHR", "junk", "SNP", "P", "POS"]]), "names": rng.choice([None, {"SNP": "ID", "P": "p-value", "CHR": "CHROM", "POS": "position"}]), "pgen": rng.random() < 0.3}
+        # SNP-only, STR-only or mixed input: an STR's alleles are repeat copy numbers (1..7 whole units), its dosage their sum
+        mode = rng.choice(["snp", "snp", "str", "mixed", "mixed"])
+        types = ["SNP" if mode == "snp" or (mode == "mixed" and rng.random() < 0.5) else "STR" for _ in range(nv)]
+        for j in range(nv):
+            if types[j] == "STR":
+                lo, hi = rng.sample([1, 2, 3, 4, 5, 7], 2)
+                gts[j] = [[(hi if a else lo), (hi if b else lo)] for a, b in gts[j]]
+                if rng.random() < 0.3:
+                    k = rng.randrange(ns)
+                    gts[j][k] = [rng.randint(1, 7), rng.randint(1, 7)]
+        yield {"types": types, "variants": variants, "gts": gts, "order": rows, "p1": rng.choice(["0.0001", "0.01", "0.1", "0.6", "1"]), "p2": rng.choice(["0.01", "0.3", "1"]), "kb": rng.choice([0.001, 0.5, 1, 250, 250]), "r2": rng.choice([0.0, 0.1, 0.5, 0.9]), "ld": rng.choice(["Pearson", "Pearson", "Exact"]) if mode == "snp" else "Pearson", "cols": rng.choice([["SNP", "CHR", "POS", "P"], ["P", "POS", "SNP", "CHR"], ["CHR", "junk", "SNP", "P", "POS"]]), "names": rng.choice([None, {"SNP": "ID", "P": "p-value", "CHR": "CHROM", "POS": "position"}]), "pgen": rng.random() < 0.3 and mode != "str"}
+
+
+def loaded_order(case):
+    """the order in which clumpstr holds the variants: the SNP table's rows, then the STR table's rows (file order each)"""
+    ty = case.get("types") or ["SNP"] * len(case["variants"])
+    return [j for j in case["order"] if ty[j] == "SNP"] + [j for j in case["order"] if ty[j] == "STR"]
+
+
+def write_str_vcf(path, samples, recs):
+    """a HipSTR-style tandem-repeat VCF: recs = [(id, chrom, pos, motif, [[copy_a, copy_b] per sample])]"""
+    with open(path, "w") as f:
+        f.write("##fileformat=VCFv4.2\n##command=HipSTR-v0.7 --test\n")
+        f.write('##INFO=<ID=START,Number=1,Type=Integer,Description="Inclusive start coodinate for the repetitive portion of the reference allele">\n')
+        f.write('##INFO=<ID=END,Number=1,Type=Integer,Description="Inclusive end coordinate for the repetitive portion of the reference allele">\n')
+        f.write('##INFO=<ID=PERIOD,Number=1,Type=Integer,Description="Length of STR motif">\n')
+        f.write('##FORMAT=<ID=GT,Number=1,Type=String,Description="Genotype">\n')
+        for c in ("1", "2", "X"):
+            f.write(f"##contig=<ID={c}>\n")
+        f.write("#CHROM\tPOS\tID\tREF\tALT\tQUAL\tFILTER\tINFO\tFORMAT\t" + "\t".join(samples) + "\n")
+        for vid, chrom, pos, motif, col in recs:
+            copies = sorted({x for pair in col for x in pair})
+            ref = copies[0]
+            alts = [k for k in copies if k != ref] or [ref + 1]
+            idx = {ref: 0, **{k: i + 1 for i, k in enumerate(alts)}}
+            gt = ["|".join(str(idx[x]) for x in pair) for pair in col]
+            f.write("\t".join([chrom, str(pos), vid, motif * ref, ",".join(motif * k for k in alts), ".", ".", f"START={pos};END={pos + len(motif) * ref - 1};PERIOD={len(motif)}", "GT"] + gt) + "\n")
 
 
 def _decisions(case):
@@ -176,25 +212,38 @@ def impl_clump(case):
 
     names = case["names"] or {}
     nm = lambda k: names.get(k, k)
-    st = _dir / "stats.txt"
-    with open(st, "w") as f:
-        f.write(("#" if case["order"][0] % 2 else "") + "\t".join(nm(c) for c in case["cols"]) + "\n")
-        for j in case["order"]:
-            v = case["variants"][j]
-            row = {"SNP": v["id"], "CHR": v["chrom"], "POS": str(v["pos"]), "P": v["p"], "junk": "x"}
-            f.write("\t".join(row[c] for c in case["cols"]) + "\n")
+    ty = case.get("types") or ["SNP"] * len(case["variants"])
+    stats = {}
+    for kind in ("SNP", "STR"):
+        rows = [j for j in case["order"] if ty[j] == kind]
+        if not rows:
+            continue
+        stats[kind] = _dir / f"stats_{kind}.txt"
+        with open(stats[kind], "w") as f:
+            f.write(("#" if case["order"][0] % 2 else "") + "\t".join(nm(c) for c in case["cols"]) + "\n")
+            for j in rows:
+                v = case["variants"][j]
+                row = {"SNP": v["id"], "CHR": v["chrom"], "POS": str(v["pos"]), "P": v["p"], "junk": "x"}
+                f.write("\t".join(row[c] for c in case["cols"]) + "\n")
     order = sorted(range(len(case["variants"])), key=lambda j: ({"1": 1, "2": 2, "X": 23}[case["variants"][j]["chrom"]], case["variants"][j]["pos"]))
     samples = [f"s{i}" for i in range(len(case["gts"][0]))]
-    variants = [(case["variants"][j]["id"] if case["variants"][j]["id"] != "." else f"noid{j}", case["variants"][j]["chrom"], case["variants"][j]["pos"], ["A", "C"]) for j in order]
-    data = [[(case["gts"][j][i][0], case["gts"][j][i][1], 1) for j in order] for i in range(len(samples))]
-    if case["pgen"]:
-        GF.write_pgen(_dir / "g", samples, variants, data)
-        gfile = str(_dir / "g.pgen")
-    else:
-        GF.write_vcf_text(_dir / "g.vcf", samples, variants, data, contigs=["1", "2", "X"])
-        gfile = str(_dir / "g.vcf")
+    gfile = sfile = None
+    snp_order = [j for j in order if ty[j] == "SNP"]
+    if snp_order:
+        variants = [(case["variants"][j]["id"] if case["variants"][j]["id"] != "." else f"noid{j}", case["variants"][j]["chrom"], case["variants"][j]["pos"], ["A", "C"]) for j in snp_order]
+        data = [[(case["gts"][j][i][0], case["gts"][j][i][1], 1) for j in snp_order] for i in range(len(samples))]
+        if case["pgen"]:
+            GF.write_pgen(_dir / "g", samples, variants, data)
+            gfile = str(_dir / "g.pgen")
+        else:
+            GF.write_vcf_text(_dir / "g.vcf", samples, variants, data, contigs=["1", "2", "X"])
+            gfile = str(_dir / "g.vcf")
+    str_order = [j for j in order if ty[j] == "STR"]
+    if str_order:
+        write_str_vcf(_dir / "tr.vcf", samples, [(case["variants"][j]["id"] if case["variants"][j]["id"] != "." else f"tr{j}", case["variants"][j]["chrom"], case["variants"][j]["pos"], ["AC", "GTT", "A"][j % 3], case["gts"][j]) for j in str_order])
+        sfile = str(_dir / "tr.vcf")
     out = _dir / "out.clump"
-    K.clumpstr(str(st), None, gfile, None, float(case["p1"]), float(case["p2"]), nm("SNP"), nm("P"), nm("CHR"), nm("POS"), case["kb"], case["r2"], case["ld"], str(out), SD.silent_log())
+    K.clumpstr(str(stats["SNP"]) if "SNP" in stats else None, str(stats["STR"]) if "STR" in stats else None, gfile, sfile, float(case["p1"]), float(case["p2"]), nm("SNP"), nm("P"), nm("CHR"), nm("POS"), case["kb"], case["r2"], case["ld"], str(out), SD.silent_log())
     lines = open(out).read().splitlines()
     clumps = []
     key = {(v["id"], v["chrom"], v["pos"]): j for j, v in enumerate(case["variants"])}
@@ -206,6 +255,8 @@ def impl_clump(case):
             for item in f[5].split(","):
                 t = item.split(" ")
                 mem.append(key[(t[0], t[1], int(t[2]))])
+        if f[4] != ty[idx]:
+            return {"error": "vartype", "msg": f"variant {f[0]} {f[1]}:{f[2]} is listed with VARTYPE {f[4]}, it was given as {ty[idx]}"}
         clumps.append([idx, mem])
     return {"clumps": clumps, "header": lines[0].split("\t")}
 
@@ -231,8 +282,8 @@ def model_req_clump(case):
     if case["ld"] == "Exact":
         ld = _decisions_exact_mode(case)
     f = lambda s: int(Fraction(s) * ONE)
-    # uid = position in the loaded list = file order
-    order = case["order"]
+    # uid = position in the loaded list = file order (SNP table first, then STR table)
+    order = loaded_order(case)
     vs = [{"p": f(case["variants"][j]["p"]), "chrom": case["variants"][j]["chrom"], "pos": case["variants"][j]["pos"]} for j in order]
     ldm = [[ld[i][j] for j in order] for i in order]
     return {"op": "clump", "one": ONE, "p1": f(case["p1"]), "p2": f(case["p2"]), "win": int(round(case["kb"] * 1000)), "vars": vs, "ld": ldm}
@@ -241,7 +292,7 @@ def model_req_clump(case):
 def model_obs_clump(case, resp):
     if case["ld"] == "Pearson" and _decisions(case)[1]:
         return {"near_threshold": True}
-    order = case["order"]
+    order = loaded_order(case)
     return {"clumps": [[order[i], [order[m] for m in mem]] for i, mem in resp["clumps"]], "header": ["ID", "CHROM", "POS", "P", "VARTYPE", "CLUMPVARS"]}
 
 
@@ -270,7 +321,7 @@ def oracle_clump(case, obs):
     V = case["variants"]
     P = [Fraction(v["p"]) for v in V]
     p1, p2 = Fraction(case["p1"]), Fraction(case["p2"])
-    pool = [j for j in case["order"] if P[j] <= p2]
+    pool = [j for j in loaded_order(case) if P[j] <= p2]
     exp = []
     while True:
         cand = [j for j in pool if P[j] < p1 and P[j] < 1]
@@ -288,7 +339,8 @@ def oracle_clump(case, obs):
 def describe_clump(case, obs):
     if isinstance(obs, dict) and obs.get("near_threshold"):
         return ["skipped-r2-within-1e-6-of-threshold"]
-    tags = [case["ld"], "pgen" if case["pgen"] else "vcf", f"clumps={len(obs.get('clumps', [])) if isinstance(obs, dict) else 'err'}"]
+    ty = set(case.get("types") or ["SNP"])
+    tags = [case["ld"], "pgen" if case["pgen"] else "vcf", "input=" + ("mixed" if len(ty) == 2 else ty.pop()), f"clumps={len(obs.get('clumps', [])) if isinstance(obs, dict) else 'err'}"]
     ps = [v["p"] for v in case["variants"]]
     if len(set(ps)) < len(ps):
         tags.append("p-ties")
@@ -360,7 +412,7 @@ CHECK = Check(
             setup=setup,
             teardown=teardown,
             nontrivial=lambda c, o: C.jdump(c) if isinstance(o, dict) and len(o.get("clumps", [])) >= 1 and len(c["variants"]) > 2 else None,
-            rule="seeded random summary-statistics tables (1-8 variants on 1-2 chromosomes, p from {0,1e-8,...,1} with ties, shuffled rows, three column orders, default and renamed columns, optional leading #), phased bi-allelic genotype matrices with correlated, constant and independent columns (VCF or PGEN), thresholds p1, p2, kb (0.001..250), r2 (0..0.9), both LD modes; the .clump file is compared with the Lean greedy loop fed the exact-rational LD decisions (Pearson; cases within 1e-6 of the r2 threshold and the Exact mode are compared structurally only)",
+            rule="seeded random summary-statistics tables (1-8 variants on 1-2 chromosomes, p from {0,1e-8,...,1} with ties, shuffled rows, three column orders, default and renamed columns, optional leading #), SNP-only, STR-only and mixed input (SNP table + STR table, SNP genotypes as VCF or PGEN, STR genotypes as a HipSTR-style VCF read through GenotypesTR; STR alleles are whole repeat copy numbers 1-7, the dosage their sum), phased genotype matrices with correlated, constant and independent columns, thresholds p1, p2, kb (0.001..250), r2 (0..0.9), both LD modes; the .clump file is compared with the Lean greedy loop fed the exact-rational LD decisions (Pearson; cases within 1e-6 of the r2 threshold and the Exact mode are compared structurally only)",
         ),
         Section(
             name="compute_ld",
